@@ -9,7 +9,7 @@ against the Lean specification (SigModel/Spec/Logs.lean) — see evidence and kn
 -/
 import SigModel.Gen.TimeRange
 import SigModel.Spec.Logs
-import SigModel.Lemmas.C02Kc
+import SigModel.Lemmas.C02Kd
 
 namespace SigModel.Props.C02
 open SigModel.Gen SigModel.Spec
@@ -54,11 +54,13 @@ example : TimeRange_CheckRangeOverLap 20 10 5 12 = true ∧ TimeRange_CheckRange
 
 Model `SigModel/Model/Cmp.lean` (mirrors rawchecker.go filterOpOnDataType → fopOnNumber → compareNumberDte,
 segutils.go enclosureFromJsonNumber, metacheckers.go checkRangeIndexHelper, evaluationstructs.go / dtypeutils.go
-where-stage comparison), tied to the real code by the correspondence suite `cmpk`.  `rnd` is the float64 rounding
-(`strconv.ParseFloat`, `float64(int)`, the subtraction in AlmostEquals); the theorems hold for EVERY `rnd` with
-`RndOk rnd` (rnd 0 = 0, 0 < rnd 0.0001, idempotent, fixes binary64 values); exactness of `rnd` on a converted
-integer is part of the guards (true for |n| ≤ 2^53).  Counterexamples use the Oracle's concrete round-to-nearest-even
-`roundF64` and are replayed on the real code (corpus/cmpk.ops). -/
+where-stage comparison — the code AFTER the C02 repairs: exact float64 `=`/`!=`, unsigned literal above MaxInt64
+against a signed record, ConvertToSameType keeping the values when a conversion fails), tied to the real code by the
+correspondence suite `cmpk`.  `rnd` is the float64 rounding (`strconv.ParseFloat`, `float64(int)`); the theorems
+hold for EVERY `rnd` with `RndOk rnd` (rnd 0 = 0, idempotent, fixes binary64 values); exactness of `rnd` on a
+converted integer is part of the guards and holds within ±2^53 (`Exact53`).  Counterexamples use the Oracle's
+concrete round-to-nearest-even `roundF64` and are replayed on the real code (corpus/cmpk.ops).  Definitions named
+`…Old` are the code before the repairs; their counterexample theorems are kept for the record. -/
 
 section Kernel
 open SigModel.Cmp SigModel.Tlv SigModel.Lemmas.C02K
@@ -70,12 +72,6 @@ literal the float64 it parses to; a value that is not a number satisfies only `!
 def ImplEqSpec (rnd : Rat → Rat) : Prop :=
   ∀ (ci : Bool) (v : SVal) (op : Cmp.Op) (t : NumText), v.wf → t.wf →
     implCmp rnd ci v.enc op (mkLit rnd t) = .ok (specCmp v op (mkLit rnd t))
-
-/-- REFUTED, class A (AlmostEquals tolerance): the stored float64 2.00001 `=` literal 2 is true in the code. -/
-theorem implCmp_eq_spec_counterexample_tolerance : ¬ ImplEqSpec roundF64 := by
-  intro h
-  have := h false (.float 0x400000053e2d6239) .eq ⟨false, some 2, some 2, 2⟩ (by decide) (by decide)
-  revert this; decide +kernel
 
 /-- REFUTED, class B: the stored int64 2^53+1 is not `>` the literal 9007199254740992.0 in the code
 (`float64(record)` drops the low bit). -/
@@ -92,17 +88,11 @@ theorem implCmp_eq_spec_counterexample_lit_beyond_2_53 : ¬ ImplEqSpec roundF64 
     ⟨false, some 9223372036854775807, some 9223372036854775807, 9223372036854775807⟩ (by decide) (by decide)
   revert this; decide +kernel
 
-/-- REFUTED, class D: the stored uint64 0 is `<` the literal -1000 in the code (`uint64(-1000)` wraps). -/
+/-- REFUTED, class D (latent: no ingest path stores uint64 records): the stored uint64 0 is `<` the literal -1000
+in the code (`uint64(-1000)` wraps). -/
 theorem implCmp_eq_spec_counterexample_uint_vs_negative : ¬ ImplEqSpec roundF64 := by
   intro h
   have := h false (.uint 0) .lt ⟨true, none, some (-1000), -1000⟩ (by decide) (by decide)
-  revert this; decide +kernel
-
-/-- REFUTED, class E: the stored int64 5 is not `<` the literal 9223372036854775808 in the code
-(`int64(2^63)` wraps to -2^63). -/
-theorem implCmp_eq_spec_counterexample_lit_beyond_int64 : ¬ ImplEqSpec roundF64 := by
-  intro h
-  have := h false (.int 5) .lt ⟨false, some 9223372036854775808, none, 9223372036854775808⟩ (by decide) (by decide)
   revert this; decide +kernel
 
 /-- REFUTED, class F: the stored string "2" is not `=` the literal 2 in the code (numeric strings are not numbers
@@ -112,7 +102,9 @@ theorem implCmp_eq_spec_counterexample_numeric_string : ¬ ImplEqSpec roundF64 :
   have := h false (.str [50]) .eq ⟨false, some 2, some 2, 2⟩ (by decide) (by decide)
   revert this; decide +kernel
 
-/-- the decidable guard that excludes exactly the classes A–F (`cmpGuardQ`, SigModel/Lemmas/C02Kb.lean) -/
+/-- the decidable guard that excludes exactly the classes B, C, D, F (`cmpGuardQ`, SigModel/Lemmas/C02Kb.lean):
+integers that float64 does not represent exactly when a float comparison is made, an unsigned record against a
+negative integer literal, numeric strings -/
 def CmpGuard (rnd : Rat → Rat) (v : SVal) (op : Cmp.Op) (t : NumText) : Bool := cmpGuardQ rnd v op (mkLit rnd t)
 
 /-- (1) PROVED under the guard, for every rounding function with `RndOk`, every stored value, operator, literal
@@ -123,24 +115,65 @@ theorem implCmp_eq_spec_partial (rnd : Rat → Rat) (hr : RndOk rnd) (ci : Bool)
   impl_eq_spec_q rnd hr ci v hv op _ (mkLit_ok rnd hr t ht) hg
 
 /-- the case repaired by /repo ec0bd3f, at full generality: an integer record that float64 represents exactly
-(every |i| ≤ 2^53) against ANY float-typed literal (2.5, 2.0, 1e3, +2, …) under `<`, `<=`, `>`, `>=` is compared
-by value. -/
-theorem int_vs_decimal_order_by_value (rnd : Rat → Rat) (hr : RndOk rnd) (ci : Bool) (i : Int) (op : Cmp.Op) (t : NumText)
-    (hv : (SVal.int i).wf) (ht : t.wf) (hex : rnd (i : Rat) = (i : Rat)) (hf : (mkLit rnd t).dtype = .float)
-    (hop : op ≠ .eq ∧ op ≠ .ne) :
+(every |i| ≤ 2^53) against ANY float-typed literal (2.5, 2.0, 1e3, +2, …) under all six operators is compared by
+value. -/
+theorem int_vs_decimal_by_value (rnd : Rat → Rat) (hr : RndOk rnd) (ci : Bool) (i : Int) (op : Cmp.Op) (t : NumText)
+    (hv : (SVal.int i).wf) (ht : t.wf) (hex : rnd (i : Rat) = (i : Rat)) (hf : (mkLit rnd t).dtype = .float) :
     implCmp rnd ci (SVal.int i).enc op (mkLit rnd t) = .ok (specCmp (.int i) op (mkLit rnd t)) := by
   apply implCmp_eq_spec_partial rnd hr ci _ op t hv ht
-  cases op <;> simp_all [CmpGuard, cmpGuardQ, tolOk]
+  simp [CmpGuard, cmpGuardQ, hf, hex]
 
-/-- the assumptions on `rnd` are consistent, and the two that are closed facts hold for the Oracle's rounding -/
-example : RndOk (fun x => x) := ⟨rfl, by decide +kernel, fun _ => rfl, fun _ _ => rfl⟩
-theorem roundF64_zero_tol : roundF64 0 = 0 ∧ 0 < roundF64 tolerance := by decide +kernel
+/-- an int64 record against an integer literal of ANY size (negative, below 2^63, in [2^63, 2^64)) is compared by
+value — no guard (the [2^63, 2^64) part is the C02 repair of the wrapped SignedVal). -/
+theorem int_vs_int_literal_by_value (rnd : Rat → Rat) (hr : RndOk rnd) (ci : Bool) (i : Int) (op : Cmp.Op) (t : NumText)
+    (hv : (SVal.int i).wf) (ht : t.wf) (hf : (mkLit rnd t).dtype ≠ .float) :
+    implCmp rnd ci (SVal.int i).enc op (mkLit rnd t) = .ok (specCmp (.int i) op (mkLit rnd t)) := by
+  apply implCmp_eq_spec_partial rnd hr ci _ op t hv ht
+  cases hd : (mkLit rnd t).dtype <;> simp_all [CmpGuard, cmpGuardQ]
 
-/-- the guard is satisfiable: 2 < 2.5, 2 = 2.0 on an int64 record; 0.1 = 0.1 and 2.5 ≥ 2 on a float64 record -/
+/-- a float64 record against ANY float-typed literal is compared by value, `=` and `!=` included — no guard (the
+C02 repair of the AlmostEquals tolerance). -/
+theorem float_vs_decimal_by_value (rnd : Rat → Rat) (hr : RndOk rnd) (ci : Bool) (b : Nat) (op : Cmp.Op) (t : NumText)
+    (hv : (SVal.float b).wf) (ht : t.wf) (hf : (mkLit rnd t).dtype = .float) :
+    implCmp rnd ci (SVal.float b).enc op (mkLit rnd t) = .ok (specCmp (.float b) op (mkLit rnd t)) := by
+  apply implCmp_eq_spec_partial rnd hr ci _ op t hv ht
+  simp [CmpGuard, cmpGuardQ, hf]
+
+/-- the assumptions on `rnd` are consistent, and the closed one holds for the Oracle's rounding -/
+example : RndOk (fun x => x) := ⟨rfl, fun _ => rfl, fun _ _ => rfl⟩
+theorem roundF64_zero : roundF64 0 = 0 := by decide +kernel
+
+/-- the guard is satisfiable — including the inputs the repairs brought in: 2.00001 = 2 on a float64 record,
+5 < 9223372036854775808 on an int64 record -/
 example : CmpGuard roundF64 (.int 2) .lt ⟨false, none, none, 5 / 2⟩ = true ∧
     CmpGuard roundF64 (.int 2) .eq ⟨false, none, none, 2⟩ = true ∧
     CmpGuard roundF64 (.float 0x3fb999999999999a) .eq ⟨false, none, none, 1 / 10⟩ = true ∧
-    CmpGuard roundF64 (.float 0x4004000000000000) .ge ⟨false, some 2, some 2, 2⟩ = true := by decide +kernel
+    CmpGuard roundF64 (.float 0x400000053e2d6239) .eq ⟨false, some 2, some 2, 2⟩ = true ∧
+    CmpGuard roundF64 (.int 5) .lt ⟨false, some 9223372036854775808, none, 9223372036854775808⟩ = true := by
+  decide +kernel
+
+/-- regression witnesses of the two repaired search-clause classes on the fixed model -/
+example : implCmp roundF64 false (SVal.float 0x400000053e2d6239).enc .eq (mkLit roundF64 ⟨false, some 2, some 2, 2⟩) = .ok false ∧
+    implCmp roundF64 false (SVal.int 5).enc .lt
+      (mkLit roundF64 ⟨false, some 9223372036854775808, none, 9223372036854775808⟩) = .ok true := by decide +kernel
+
+/-- the search clause BEFORE the C02 repairs (tolerance-based float equality, wrapped literal in the signed branch) -/
+def ImplEqSpecOld (rnd : Rat → Rat) : Prop :=
+  ∀ (v : SVal) (op : Cmp.Op) (t : NumText), v.wf → t.wf →
+    fopOnNumberOld rnd v.enc (mkLit rnd t) op = .ok (specCmp v op (mkLit rnd t))
+
+/-- for the record, class A (REPAIRED): the stored float64 2.00001 `=` literal 2 was true (AlmostEquals, 1e-4). -/
+theorem implCmpOld_eq_spec_counterexample_tolerance : ¬ ImplEqSpecOld roundF64 := by
+  intro h
+  have := h (.float 0x400000053e2d6239) .eq ⟨false, some 2, some 2, 2⟩ (by decide) (by decide)
+  revert this; decide +kernel
+
+/-- for the record, class E (REPAIRED): the stored int64 5 was not `<` the literal 9223372036854775808
+(`int64(2^63)` wraps to -2^63). -/
+theorem implCmpOld_eq_spec_counterexample_lit_beyond_int64 : ¬ ImplEqSpecOld roundF64 := by
+  intro h
+  have := h (.int 5) .lt ⟨false, some 9223372036854775808, none, 9223372036854775808⟩ (by decide) (by decide)
+  revert this; decide +kernel
 
 /-- (2) FULL-strength statement: the block range-index check never skips a block whose range holds a value that
 satisfies the comparison by value. -/
@@ -185,19 +218,6 @@ def SearchWhereAgree (rnd : Rat → Rat) : Prop :=
   ∀ (ci : Bool) (v : SVal) (op : Cmp.Op) (t : NumText) (b : Bool), v.wf → t.wf →
     whereCmp rnd v op t = some b → implCmp rnd ci v.enc op (mkLit rnd t) = .ok b
 
-/-- REFUTED (where-stage defect in dtypeutils.ConvertToSameType): `where x=0` is TRUE for the float64 2.5, the
-search clause `x=0` is false. -/
-theorem search_where_agree_counterexample_where_zero : ¬ SearchWhereAgree roundF64 := by
-  intro h
-  have := h false (.float 0x4004000000000000) .eq ⟨false, some 0, some 0, 0⟩ true (by decide) (by decide) (by decide +kernel)
-  revert this; decide +kernel
-
-/-- REFUTED (tolerance): the float64 2.00001 `= 2` is true in the search clause, false in the where stage. -/
-theorem search_where_agree_counterexample_tolerance : ¬ SearchWhereAgree roundF64 := by
-  intro h
-  have := h false (.float 0x400000053e2d6239) .eq ⟨false, some 2, some 2, 2⟩ false (by decide) (by decide) (by decide +kernel)
-  revert this; decide +kernel
-
 /-- REFUTED (the where stage compares every number as float64): the int64 2^53+1 `= 9007199254740992` is true in
 the where stage, false in the search clause. -/
 theorem search_where_agree_counterexample_beyond_2_53 : ¬ SearchWhereAgree roundF64 := by
@@ -214,18 +234,57 @@ theorem search_where_agree_partial (rnd : Rat → Rat) (hr : RndOk rnd) (ci : Bo
     implCmp rnd ci v.enc op (mkLit rnd t) = .ok b ∧ b = specCmp v op (mkLit rnd t) := by
   have h1 := implCmp_eq_spec_partial rnd hr ci v op t hv ht hg
   cases hf : fieldFloat rnd v with
-  | none => simp [whereCmp, hf] at h
+  | none => simp [whereCmp, whereCmpWith, hf] at h
   | some a =>
     have h2 := where_eq_spec rnd hr v hv op t ht a hf hw
     rw [h2] at h
     have hb : specCmp v op (mkLit rnd t) = b := by simpa using h
     rw [h1, hb]; exact ⟨rfl, rfl⟩
 
-/-- both guards are satisfiable together: int64 2 against `< 2.5` and `= 2`, float64 2.5 against `!= 2` -/
+/-- (3) WHAT REMAINS, stated without guards: whenever every integer involved — the stored integer and the literal's
+value if it is an integer — is within ±2^53 (where float64 is exact, `Exact53`), the search clause and the where
+stage agree on every int64 / float64 field, for all six operators and every spelling of the literal (the
+tolerance and `where x=0` exceptions are gone with the C02 repairs); on a uint64 field provided the literal is not
+a negative integer (latent class D). -/
+theorem search_where_agree_within_2_53 (rnd : Rat → Rat) (hr : RndOk rnd) (hex : Exact53 rnd) (ci : Bool) (v : SVal)
+    (op : Cmp.Op) (t : NumText) (b : Bool) (hv : v.wf) (ht : t.wf) (hin : Within53 v t)
+    (hD : ∀ n, v = .uint n → (mkLit rnd t).dtype ≠ .signed) (h : whereCmp rnd v op t = some b) :
+    implCmp rnd ci v.enc op (mkLit rnd t) = .ok b ∧ b = specCmp v op (mkLit rnd t) := by
+  have hnum : (fieldFloat rnd v).isSome = true := by
+    cases hf : fieldFloat rnd v with
+    | none => simp [whereCmp, whereCmpWith, hf] at h
+    | some a => rfl
+  have hg := guards_within_2_53 rnd hr hex v op t ht hin hnum hD
+  exact search_where_agree_partial rnd hr ci v op t b hv ht hg.1 hg.2 h
+
+/-- both guards are satisfiable together — including the inputs the repairs brought in (2.5 = 0, 2.00001 = 2) -/
 example : (CmpGuard roundF64 (.int 2) .lt ⟨false, none, none, 5 / 2⟩ && whereGuard roundF64 (.int 2) .lt ⟨false, none, none, 5 / 2⟩) = true ∧
-    (CmpGuard roundF64 (.int 2) .eq ⟨false, some 2, some 2, 2⟩ && whereGuard roundF64 (.int 2) .eq ⟨false, some 2, some 2, 2⟩) = true ∧
-    (CmpGuard roundF64 (.float 0x4004000000000000) .ne ⟨false, some 2, some 2, 2⟩ &&
-      whereGuard roundF64 (.float 0x4004000000000000) .ne ⟨false, some 2, some 2, 2⟩) = true := by decide +kernel
+    (CmpGuard roundF64 (.float 0x4004000000000000) .eq ⟨false, some 0, some 0, 0⟩ &&
+      whereGuard roundF64 (.float 0x4004000000000000) .eq ⟨false, some 0, some 0, 0⟩) = true ∧
+    (CmpGuard roundF64 (.float 0x400000053e2d6239) .ne ⟨false, some 2, some 2, 2⟩ &&
+      whereGuard roundF64 (.float 0x400000053e2d6239) .ne ⟨false, some 2, some 2, 2⟩) = true := by decide +kernel
+
+/-- regression witnesses of the repaired where-stage class on the fixed model: `where x=0` is false for 2.5 -/
+example : whereCmp roundF64 (.float 0x4004000000000000) .eq ⟨false, some 0, some 0, 0⟩ = some false ∧
+    whereCmp roundF64 (.float 0x4004000000000000) .ne ⟨false, some 0, some 0, 0⟩ = some true := by decide +kernel
+
+/-- the two stages BEFORE the C02 repairs -/
+def SearchWhereAgreeOld (rnd : Rat → Rat) : Prop :=
+  ∀ (v : SVal) (op : Cmp.Op) (t : NumText) (b : Bool), v.wf → t.wf →
+    whereCmpOld rnd v op t = some b → fopOnNumberOld rnd v.enc (mkLit rnd t) op = .ok b
+
+/-- for the record (REPAIRED, dtypeutils.ConvertToSameType): `where x=0` was TRUE for the float64 2.5. -/
+theorem search_where_agree_old_counterexample_where_zero : ¬ SearchWhereAgreeOld roundF64 := by
+  intro h
+  have := h (.float 0x4004000000000000) .eq ⟨false, some 0, some 0, 0⟩ true (by decide) (by decide) (by decide +kernel)
+  revert this; decide +kernel
+
+/-- for the record (REPAIRED, tolerance): the float64 2.00001 `= 2` was true in the search clause, false in the
+where stage. -/
+theorem search_where_agree_old_counterexample_tolerance : ¬ SearchWhereAgreeOld roundF64 := by
+  intro h
+  have := h (.float 0x400000053e2d6239) .eq ⟨false, some 2, some 2, 2⟩ false (by decide) (by decide) (by decide +kernel)
+  revert this; decide +kernel
 
 /-- case-insensitive text equality of the kernel (`fopOnString`): `=` on a stored string against a string literal
 of any length is ASCII case-folded equality when the flag is set, byte equality otherwise; `!=` is its negation. -/
